@@ -91,6 +91,13 @@ _f13p = ["synth::gen::RR::from_string", "synth::parser::rr_parser", "synth::pars
 for w in ("a", "aaaa", "ns", "cname", "ptr", "mx", "soa", "ds", "txt"):
     add("synth_build_" + w, ["C13"], tier="quick", timeout=600, est=30, path="registry::h_c13::proofs::", funcs=_f13,
         bound="%s::build with every value of its numeric fields (TTL, address, preference, counters, key tag, digest bytes) and concrete names: result == RFC 1035 wire form" % w.upper())
+for n, what in (("bad_ds_odd", "DS digest with an odd number of hex digits"), ("bad_ds_nonhex", "non-hex DS digest"), ("bad_octet256", "IPv4 octet 256"), ("bad_ttl_2e32", "TTL 4294967296"),
+                ("bad_pref_2e16", "MX preference 65536"), ("bad_txt_unbalanced", "unbalanced TXT quote"), ("bad_txt_escape300", "TXT escape \\\\300"), ("bad_surplus_field", "surplus trailing field"),
+                ("bad_missing_field", "missing MX exchange"), ("bad_class_ch", "class CH"), ("bad_aaaa", "IPv4 text for AAAA"),
+                ("ok_a_boundary", "TTL 0, lowercase keywords, octets 255/0"), ("ok_mx_boundary", "TTL 2^32-1, preference 65535, tabs and double spaces"), ("ok_txt_escapes", "TXT escapes \\\\255 \\\\000"),
+                ("ok_ds", "DS key tag 65535, mixed-case hex"), ("ok_soa", "SOA with counter 2^32-1")):
+    add("synth_ct_" + n, ["C13"], tier="quick", timeout=900, est=80, mem_gb=24, path="registry::h_c13::proofs::", funcs=_f13p,
+        bound="RR::from_string on one concrete text (%s): %s" % (what, "must be an error, no panic" if n.startswith("bad") else "wire form == RFC 1035 encoding"))
 for n in ("255", "256"):
     add("synth_txt_" + n, ["C13"], tier="quick", timeout=900, est=60, path="registry::h_c13::proofs::", funcs=_f13, fs=600,
         bound="TXT::build with %s bytes of text (two symbolic byte values): chunks of at most 255 bytes" % n)
